@@ -1,8 +1,12 @@
 //! Writer side: a virtual position sampled from `bgzf::io::Writer` between calls names the byte that is
-//! written next — seeking a fresh reader there over the finished file reads the bytes written from
-//! that point on.
+//! written next — seeking any reader there over the finished file reads the bytes written from that
+//! point on.
+//!
+//! The history alphabet is write / flush / `try_finish` / `get_ref` at ANY position: a writer that keeps
+//! being used after `try_finish()` produces a legal stream with an EOF marker (an empty member) in the
+//! middle, as when a second BGZF stream is appended. (`bgzf::io::Writer` has no `get_mut()`.)
 
-use std::io::{BufRead, Cursor, Read, Write};
+use std::io::{BufRead, Cursor, Read, Seek, SeekFrom, Write};
 
 use noodles_bgzf as bgzf;
 use vmc::{
@@ -14,12 +18,30 @@ use crate::files::{Blk, resolve_in, vp};
 
 #[derive(Clone, Copy, Debug, PartialEq)]
 pub enum WOp {
+    /// raw `write()` calls until n bytes are accepted
     W(usize),
+    /// `flush()`
     F,
+    /// `try_finish()` — the writer stays usable afterwards
+    T,
+    /// `get_ref()`: the sink so far must consist of whole members holding the flushed prefix of the data,
+    /// and the position reported now must point at the sink's end (where the next member will start)
+    G,
 }
 
-fn fp(stage: &str, check: &str) -> String {
-    format!("side=writer stage={stage} check={check}")
+fn table(members: &[ob::Member]) -> (Vec<Blk>, usize) {
+    let mut blocks = Vec::new();
+    let mut u = 0usize;
+    for m in members {
+        blocks.push(Blk {
+            cstart: m.offset as u64,
+            csize: m.size as u64,
+            ustart: u,
+            len: m.data.len(),
+        });
+        u += m.data.len();
+    }
+    (blocks, u)
 }
 
 pub fn body(ch: &Chooser, alphabet: &[WOp], depth: usize, classes: &[Payload], levels: &[u8]) -> Outcome {
@@ -35,10 +57,20 @@ pub fn body(ch: &Chooser, alphabet: &[WOp], depth: usize, classes: &[Payload], l
     }
     let describe = || {
         format!(
-            "payload={class:?} level={level} writer ops={ops:?} (W(n) = raw write() calls until n bytes are accepted, F = flush), virtual_position() sampled before every call and before finish()"
+            "payload={class:?} level={level} writer ops={ops:?} (W(n) = raw write() calls until n bytes are accepted, F = flush, T = try_finish, G = get_ref), virtual_position() sampled before every call and before finish()"
         )
     };
     ch.desc(describe);
+    // class-level shape of the history for the fingerprint
+    let shape = {
+        let first_t = ops.iter().position(|o| *o == WOp::T);
+        match first_t {
+            Some(i) if ops[i + 1..].iter().any(|o| matches!(o, WOp::W(n) if *n > 0)) => "data-after-try_finish",
+            Some(_) => "try_finish-without-later-data",
+            None => "no-try_finish",
+        }
+    };
+    let fp = |stage: &str, check: &str| format!("side=writer history={shape} stage={stage} check={check}");
     let err = |stage: &str, e: std::io::Error| Violation::new(fp(stage, "error"), describe(), "Ok", format!("{e}"));
 
     let lvl = bgzf::io::writer::CompressionLevel::new(level).expect("level");
@@ -53,6 +85,52 @@ pub fn body(ch: &Chooser, alphabet: &[WOp], depth: usize, classes: &[Payload], l
             WOp::F => {
                 samples.push((u64::from(w.virtual_position()), model.len(), "flush"));
                 w.flush().map_err(|e| err("flush", e))?;
+            }
+            WOp::T => {
+                samples.push((u64::from(w.virtual_position()), model.len(), "try_finish"));
+                w.try_finish().map_err(|e| err("try_finish", e))?;
+                ch.tag("try_finish inside the history");
+            }
+            WOp::G => {
+                let v = u64::from(w.virtual_position());
+                samples.push((v, model.len(), "get_ref"));
+                let sink: Vec<u8> = w.get_ref().clone();
+                let members = ob::walk(&sink)
+                    .map_err(|e| Violation::new(fp("get_ref", "sink-malformed"), describe(), "whole well-formed members", e))?;
+                let (blocks, flushed) = table(&members);
+                let cat: Vec<u8> = members.iter().flat_map(|m| m.data.iter().copied()).collect();
+                if flushed > model.len() || cat[..] != model[..flushed] {
+                    return Err(Violation::new(
+                        fp("get_ref", "sink-content"),
+                        describe(),
+                        "a prefix of the bytes written",
+                        vmc::diff_bytes(&model[..flushed.min(model.len())], &cat),
+                    ));
+                }
+                // the position names byte `u` of the member that will start at the sink's end; any
+                // equivalent encoding (start of a trailing run of empty members) is accepted
+                let (c, u) = (v >> 16, (v & 0xffff) as usize);
+                let at_end = c == sink.len() as u64
+                    || blocks
+                        .iter()
+                        .position(|b| b.cstart == c)
+                        .is_some_and(|i| blocks[i..].iter().all(|b| b.len == 0));
+                if !at_end || u != model.len() - flushed {
+                    return Err(Violation::new(
+                        fp("get_ref", "vpos-not-at-sink-end"),
+                        describe(),
+                        format!(
+                            "({}, {}): the sink holds {} bytes in {} members, {} bytes are staged",
+                            sink.len(),
+                            model.len() - flushed,
+                            sink.len(),
+                            members.len(),
+                            model.len() - flushed
+                        ),
+                        vp(v),
+                    ));
+                }
+                ch.tag("get_ref inside the history");
             }
             WOp::W(n) => {
                 let data = ob::payload(class, model.len() as u64, n);
@@ -78,25 +156,32 @@ pub fn body(ch: &Chooser, alphabet: &[WOp], depth: usize, classes: &[Payload], l
     let bytes = w.finish().map_err(|e| err("finish", e))?;
     samples.dedup_by_key(|s| (s.0, s.1));
 
-    // the file's geometry by the independent walker
+    // the file's geometry by the independent walker (mid-stream empty members are ordinary members)
     let members = ob::walk(&bytes).map_err(|e| Violation::new(fp("walk", "malformed"), describe(), "well-formed BGZF", e))?;
-    let mut blocks = Vec::new();
-    let mut u = 0usize;
-    for m in &members {
-        blocks.push(Blk {
-            cstart: m.offset as u64,
-            csize: m.size as u64,
-            ustart: u,
-            len: m.data.len(),
-        });
-        u += m.data.len();
-    }
+    let (blocks, u) = table(&members);
     let flen = bytes.len() as u64;
     let total = model.len();
     if u != total {
         return Err(Violation::new(fp("walk", "length"), describe(), format!("{total} bytes"), format!("{u} bytes")));
     }
+    let mid_empty = blocks.iter().enumerate().any(|(i, b)| b.len == 0 && blocks[i + 1..].iter().any(|c| c.len > 0));
+    if mid_empty {
+        ch.tag("file with an empty member (EOF marker) before later data");
+    }
+    if blocks.windows(2).any(|w| w[0].len == 0 && w[1].len == 0) {
+        ch.tag("file with adjacent empty members");
+    }
     let resolve = |v: u64| resolve_in(&blocks, flen, total, v);
+
+    // gzi per the htslib definition from the walker's table: one entry per member after the first,
+    // without [0] / with [1] the terminating entry for the final EOF marker
+    let all: Vec<(u64, u64)> = blocks.iter().skip(1).map(|b| (b.cstart, b.ustart as u64)).collect();
+    let mut gzis = vec![all.clone()];
+    if let Some(last) = blocks.last() {
+        if last.len == 0 && blocks.len() > 1 {
+            gzis.insert(0, all[..all.len() - 1].to_vec());
+        }
+    }
 
     let mut prev = 0u64;
     for &(v, off, before) in &samples {
@@ -138,6 +223,38 @@ pub fn body(ch: &Chooser, alphabet: &[WOp], depth: usize, classes: &[Payload], l
                 vmc::diff_bytes(&model[off..], &back),
             ));
         }
+        // (2b) the same byte through a gzi over this file: plain reader and indexed reader
+        for (gi, g) in gzis.iter().enumerate() {
+            let gname = if gzis.len() == 2 && gi == 0 { "htslib-write" } else { "with-terminator" };
+            let n = (total - off).min(9);
+            let index = bgzf::gzi::Index::from(g.clone());
+            let mut r = bgzf::io::Reader::new(Cursor::new(&bytes[..]));
+            let mut buf = [0u8; 9];
+            let res = r
+                .seek_by_uncompressed_position(&index, off as u64)
+                .and_then(|_| r.read_exact(&mut buf[..n]));
+            let gv = u64::from(r.virtual_position());
+            if res.is_err() || buf[..n] != model[off..off + n] || resolve(gv) != Some(off + n) {
+                return Err(Violation::new(
+                    fp("gzi-seek", &format!("reader=Reader gzi={gname}")),
+                    format!("{}; gzi {:?}; seek_by_uncompressed_position({off}) then read_exact({n})", describe(), g),
+                    format!("{:?}, position resolving to {}", &model[off..off + n], off + n),
+                    format!("{res:?} {:?}, {} resolves to {:?}", &buf[..n], vp(gv), resolve(gv)),
+                ));
+            }
+            let mut r = bgzf::io::IndexedReader::new(Cursor::new(&bytes[..]), index);
+            let mut buf = [0u8; 9];
+            let res = r.seek(SeekFrom::Start(off as u64)).and_then(|_| r.read_exact(&mut buf[..n]));
+            let gv = u64::from(r.virtual_position());
+            if res.is_err() || buf[..n] != model[off..off + n] || resolve(gv) != Some(off + n) {
+                return Err(Violation::new(
+                    fp("gzi-seek", &format!("reader=IndexedReader gzi={gname}")),
+                    format!("{}; gzi {:?}; IndexedReader::seek(Start({off})) then read_exact({n})", describe(), g),
+                    format!("{:?}, position resolving to {}", &model[off..off + n], off + n),
+                    format!("{res:?} {:?}, {} resolves to {:?}", &buf[..n], vp(gv), resolve(gv)),
+                ));
+            }
+        }
         ch.state((v, off));
         if v & 0xffff == 0 && off > 0 {
             ch.tag("sample at a block start after data");
@@ -153,6 +270,12 @@ pub fn body(ch: &Chooser, alphabet: &[WOp], depth: usize, classes: &[Payload], l
         }
         if blocks.iter().any(|b| b.cstart == v >> 16 && b.len == 65495) {
             ch.tag("sample in a block cut by a full staging buffer");
+        }
+        if off < total && blocks.iter().any(|b| b.cstart == v >> 16 && b.len == 0) {
+            ch.tag("sample pointing at a mid-stream EOF marker (resolves by skipping it)");
+        }
+        if blocks.iter().any(|b| b.len == 0 && b.cstart < v >> 16 && b.ustart < total) && off < total {
+            ch.tag("sample behind a mid-stream EOF marker with data following");
         }
     }
 
@@ -189,5 +312,6 @@ pub fn body(ch: &Chooser, alphabet: &[WOp], depth: usize, classes: &[Payload], l
     }
 
     ch.obs_hash(&samples.iter().map(|s| (s.0, s.1)).collect::<Vec<_>>());
+    ch.obs_hash(blocks.iter().map(|b| (b.cstart, b.len)).collect::<Vec<_>>());
     Ok(())
 }
